@@ -214,6 +214,12 @@ def mk_pipeline(name, max_shift=2509):
                     pa = sorted(d.label for d in a.determinants['sidechain'])
                     pb = sorted(d.label for d in b.determinants['sidechain'])
                     ctx.claim('listed:sidechain-hbond-partners-kept', pa == pb, detail='%r: %r vs %r' % (key, pa, pb))
+                elif a.titratable:
+                    # 'every other residue still acts as hydrogen-bond partner': an unlisted residue keeps its hydrogen bonds to the
+                    # other unlisted residues too (they set the state in which it meets the listed ones in the iterative scheme)
+                    pa = sorted(d.label for d in a.determinants['sidechain'])
+                    pb = sorted(d.label for d in b.determinants['sidechain'])
+                    ctx.claim('unlisted:sidechain-hbond-partners-kept', pa == pb, detail='%r: %r vs %r' % (key, pa, pb))
         if len(listed) == len(sites) and False:
             pass
         if set(listed) == set(sites) and name != 'pep8':
